@@ -91,7 +91,7 @@ func boundsOf(s *Sym, facts []Atom, x string) (lo, hi *int64) {
 }
 
 func c13(p *Prog, r *Report) {
-	r.Explanation = "Structural necessary conditions of ECDSA compatibility decided on SSA and syntax: (1) the verification core is reached only behind 0<r,s<N; (2) the ASN.1 entry point reaches Verify only behind a checked SEQUENCE{INTEGER,INTEGER} parse with no trailing data inside or outside; (3) fail-closed entropy: in every signing/key-generation entry point success is dominated by io.ReadFull(rand)=ok, failure returns carry nil results, and the rand parameter flows nowhere else; (4) the hedged-nonce construction SHA-512(d||entropy||digest)[:32] -> AES-CTR(IV) is the only source of k; (5) signatures are encoded as ASN.1 SEQUENCE{INTEGER r, INTEGER s}; (6) reference agreement: hashToInt is identical to GOROOT crypto/ecdsa (ecdsa_legacy.go), and the statements of the reference verifyLegacy/signLegacy cores embed, in order, in verifyGeneric/signGeneric."
+	r.Explanation = "Structural necessary conditions of ECDSA compatibility decided on SSA and syntax: (1) the verification core is reached only behind 0<r,s<N; (2) the ASN.1 entry point reaches Verify only behind a checked SEQUENCE{INTEGER,INTEGER} parse with no trailing data inside or outside; (3) fail-closed entropy: in every signing/key-generation entry point success is dominated by io.ReadFull(rand)=ok, failure returns carry nil results, and the rand parameter flows nowhere else; (4) the hedged-nonce construction SHA-512(d||entropy||digest)[:32] -> AES-CTR(IV) is the only source of k; (5) signatures are encoded as ASN.1 SEQUENCE{INTEGER r, INTEGER s}; (6) reference agreement: hashToInt is identical to GOROOT crypto/ecdsa (ecdsa_legacy.go) or is proved, path by path with the linear prover, to keep min(len(hash), ceil(orderBits/8)) bytes and shift right by max(0, 8K-orderBits), and the statements of the reference verifyLegacy/signLegacy cores embed, in order, in verifyGeneric/signGeneric."
 	r.NotDecided = "verdict equality with crypto/ecdsa on every (r,s) and byte string and acceptance of produced signatures by the standard library (equivalence of two arithmetic implementations: nistec/bigmod vs math/big); the s390x assembly variant (not buildable outside GOROOT)."
 	r.Assumptions = append(r.Assumptions, "io.ReadFull returns an error on every short read", "math/big, crypto/elliptic, cryptobyte ASN.1 behave as documented", "GOROOT's crypto/ecdsa/ecdsa_legacy.go is the reference for the math/big code path")
 	r.Trusted = append(r.Trusted, "go/types, go/ssa dominators", "term evaluator, reader extractor, AST matcher of this checker", "GOROOT source of the default toolchain")
@@ -107,7 +107,7 @@ func c13(p *Prog, r *Report) {
 	r.Rule(R3, "entropy fail-closed: success dominated by io.ReadFull(rand)=ok; failure returns nil results; rand flows only to ReadFull/MaybeReadByte/in-module rand parameters", 12)
 	r.Rule(R4, "nonce stream = AES-CTR(key=SHA-512(D||entropy||hash)[:32], IV const) over zeros; k is read from that stream only", 3)
 	r.Rule(R5, "PrivateKey.Sign returns ASN.1 SEQUENCE{INTEGER r, INTEGER s} of the (r,s) Sign produced", 1)
-	r.Rule(R6, "hashToInt identical to GOROOT crypto/ecdsa; reference verify/sign core statements embed in order in verifyGeneric/signGeneric", 3)
+	r.Rule(R6, "hashToInt identical to GOROOT crypto/ecdsa (or proved on every path to compute the same truncation and shift); reference verify/sign core statements embed in order in verifyGeneric/signGeneric", 3)
 
 	ecdsaVerifyRangeChecks(p, r, R1)
 
